@@ -779,12 +779,44 @@ class _Idioms(ast.NodeTransformer):
         return n
 
 
+class _LocalAnn(ast.NodeTransformer):
+    """Inside a function body `x: T = v` is `x = v` (annotations of locals are neither evaluated nor stored) and a
+    bare `x: T` is nothing.  Class bodies and the module level are left alone (dataclass fields, module annotations)."""
+
+    def __init__(self):
+        self.count = 0
+        self.depth = 0
+
+    def visit_FunctionDef(self, n):
+        self.depth += 1
+        self.generic_visit(n)
+        self.depth -= 1
+        return n
+
+    def visit_ClassDef(self, n):
+        d, self.depth = self.depth, 0
+        self.generic_visit(n)
+        self.depth = d
+        return n
+
+    def visit_AnnAssign(self, n):
+        if self.depth == 0 or not n.simple or not isinstance(n.target, ast.Name):
+            return n
+        self.count += 1
+        if n.value is None:
+            return ast.copy_location(ast.Pass(), n)
+        return ast.copy_location(ast.Assign(targets=[n.target], value=n.value), n)
+
+
 def canonical_idioms(modules: dict, names=('functions', 'classes', 'parsing', 'tools')) -> int:
     done = 0
     for mn in names:
         m = modules.get(mn)
         if m is None:
             continue
+        la = _LocalAnn()
+        la.visit(m.tree)
+        done += la.count
         t = _Idioms()
         t.visit(m.tree)
         if t.count:
